@@ -419,7 +419,9 @@ class Check:
         return path
 
     def write_evidence(self, nviol, note=None):
-        ev_dir = os.path.join(ROOT, "evidence")
+        # GSVERIF_EVIDENCE_DIR: tooling only (runs against a seeded scratch checkout must not replace
+        # the evidence of the real tree)
+        ev_dir = os.environ.get("GSVERIF_EVIDENCE_DIR") or os.path.join(ROOT, "evidence")
         os.makedirs(ev_dir, exist_ok=True)
         groups = self.groups
         cov = {
